@@ -351,6 +351,13 @@ def numpy_stream_layer(get_stream, on_seed=None, seed_contract=False):
     def mod_seed(s=None):
         seed(None, s)
 
+    def shuffle(self, x):
+        """in-place Fisher-Yates driven by the stream"""
+        n = len(x)
+        for i in range(n - 1, 0, -1):
+            j = int(get_stream().index(i + 1))
+            x[i], x[j] = x[j], x[i]
+
     R = _np.random.RandomState
 
     def unbound(fn):
@@ -358,9 +365,10 @@ def numpy_stream_layer(get_stream, on_seed=None, seed_contract=False):
     # replay: the recorded draws are an environment input -> plain monkeypatch of the numpy.random module attributes
     replay = [(_np.random, "seed", mod_seed)] + [(_np.random, n, unbound(fn)) for n, fn in (
         ("uniform", uniform), ("random", random), ("random_sample", random), ("rand", rand), ("choice", choice),
-        ("randint", randint), ("permutation", permutation))]
+        ("randint", randint), ("permutation", permutation), ("shuffle", shuffle))]
     return {"__cyfunc__": {id(_np.random.seed): mod_seed}, R.seed: seed, R.uniform: uniform, R.random: random,
             R.random_sample: random, R.rand: rand, R.choice: choice, R.randint: randint, R.permutation: permutation,
+            R.shuffle: shuffle,
             "__replay__": replay}
 
 
